@@ -80,6 +80,27 @@ for _k in F27_SITES:
                  'OBJECT-TYPE ... UNITS "C:\\new\\table": generated o.setUnits("C:\\new\\table") evaluates to a string with '
                  'a newline and a tab'))
 
+# F44: found by the typestate analysis of compile() (rules/compile_ts.py).  The key suffix `after-partial-file` is the
+# history "this module was produced by a symbol-table pass inside a fetch whose try body raised afterwards"; a
+# violation of the same invariant on any other history has a different key and is reported.
+F44 = ('F44: a source file holding several modules whose later module fails the symbol-table pass: the earlier modules '
+       'are already filed as parsed, then the error is recorded under the name that was being fetched - usually the '
+       'name of a good module of that file. That module is code-generated and written and nevertheless reported '
+       'failed (or, without ignoreErrors, aborts the call; with a borrower its generated text is replaced by a '
+       'borrowed copy; with a fresh copy in the destination it is reported untouched while staying in the failed '
+       'map). Not repaired: the error belongs to a module whose name is unknown at that point; a repair has to decide '
+       'whether a partially readable file yields its good modules or none.')
+F44_W = ('source file A-MIB = module A-MIB (good) followed by module Z-MIB with `zNode OBJECT IDENTIFIER ::= { nowhere 1 }`: '
+         'compile("A-MIB", ignoreErrors=True) writes A-MIB.json and returns {"A-MIB": failed}')
+for _p, _r, _k in [
+        ('C07', 'C07.T1', 'compile/ts:failed-pairing:return/in-failed/after-partial-file'),
+        ('C07', 'C07.T1', 'compile/ts:status-effect:return/written/after-partial-file'),
+        ('C09', 'C09.T1', 'compile/ts:failed-pairing:return/in-failed/after-partial-file'),
+        ('C10', 'C10.T1', 'compile/ts:fresh:return/status/after-partial-file'),
+        ('C19', 'C19.T1', 'compile/ts:borrow-failed-only:store@builtMibs/after-partial-file'),
+        ('C20', 'C20.T1', 'compile/ts:status-effect:return/written/after-partial-file')]:
+    OPEN.append((_p, _r, _k, F44, F44_W))
+
 # (property, commit, what failed, rule that reports it on the pre-fix tree)
 FIXED = [
     ('C12', 'ba6c4d3', 'F1 parser.parse() did not reset the lexer when the parse raised', 'C12.R1'),
@@ -111,6 +132,10 @@ FIXED = [
      'invalid one-line literal, not whitespace-normalised in JSON)', 'C15.R3'),
     ('C14', '5d629b6', 'F42 nested ZIP archives unreadable: FileLike lacked seekable() which zipfile requires', 'C14.R5'),
     ('C10', '121bb88', 'F35 noDeps excluded a requested module served from a differently named file', 'C10.R2'),
+    ('C07', '0f7b56c', 'F43 a module missing under its own name but found inside another source file was built and '
+     'written yet reported missing (and aborted the call without ignoreErrors; a borrower could replace its generated '
+     'text)', 'C07.T1'),
+    ('C19', '0f7b56c', 'F43 (same defect) generated code of such a module was replaced by a borrowed copy', 'C19.T1'),
 ]
 
 out = {
